@@ -76,6 +76,13 @@ class Run:
         if self.root_exists():
             if not fsops.drain(self.uni, self.rec, timeout=8.0):
                 return applied, None
+            if op[0] == "rename":
+                # a directory that left the tree is un-watched by the emitter; the kernel's IGNORED answers
+                # are queued behind the first sentinel: a second round lets the reader see them, too
+                n_before = len(self.rec.events)
+                if not fsops.drain(self.uni, self.rec, timeout=8.0):
+                    return applied, None
+                del n_before
         else:
             time.sleep(0.4)
         evs = []
@@ -177,8 +184,8 @@ def replay_judge(result, recursive):
 
 def gen_history(r, n, allow_outside_ops=False, tree=None):
     """mostly-valid operations: the generator keeps its own picture of the tree (W and O) and draws
-    operations that are applicable in it (plus ~10% blind ones); directories that left W keep their
-    kernel watches (D2), so unless allowed nothing touches what lies in O afterwards"""
+    operations that are applicable in it (plus ~10% blind ones), inside the watched tree W and — less
+    often — in the outside directory O, including what has been moved out of W and back"""
     tree = dict(tree) if tree else {"W": "d", "O": "d"}
     ops = []
     tainted = set()
@@ -197,8 +204,6 @@ def gen_history(r, n, allow_outside_ops=False, tree=None):
         if r.random() < 0.1:
             d, nme = r.choice(DIRS), r.choice(NAMES)
             op = r.choice([("create", f"{d}/{nme}"), ("unlink", f"{d}/{nme}"), ("rmdir", f"{d}/{nme}"), ("mkdir", f"{d}/{nme}")])
-            if not op[1].startswith("W"):
-                continue
             # apply to our picture only if valid
             par = op[1].rsplit("/", 1)[0]
             if op[0] in ("create", "mkdir") and tree.get(par) == "d" and op[1] not in tree:
@@ -210,8 +215,8 @@ def gen_history(r, n, allow_outside_ops=False, tree=None):
             ops.append(op)
             continue
         k = r.random()
-        ds = dirs(("W",) if r.random() < 0.85 else ("W", "O"))
-        fs_ = [f for f in files() if f.startswith("W/") or r.random() < 0.2]
+        ds = dirs(("W",) if r.random() < 0.8 else ("W", "O"))
+        fs_ = [f for f in files() if f.startswith("W/") or r.random() < 0.25]
         if k < 0.2 and ds:
             p = r.choice(ds) + "/" + r.choice(NAMES)
             if p not in tree:
@@ -239,7 +244,7 @@ def gen_history(r, n, allow_outside_ops=False, tree=None):
                 del tree[p]
                 ops.append(("rmdir", p))
         elif k < 0.73:
-            cand = [d for d in ds if d.count("/") >= 1 and d.startswith("W/")]
+            cand = [d for d in ds if d.count("/") >= 1]
             if cand:
                 p = r.choice(cand)
                 for q in subtree(p):
@@ -264,8 +269,6 @@ def gen_history(r, n, allow_outside_ops=False, tree=None):
                     del tree[q]
                 for q, kk in moved.items():
                     tree[d_ + q[len(s_):]] = kk
-                if s_.startswith("W/") and d_.startswith("O/") and moved[s_] == "d" and not allow_outside_ops:
-                    tainted.add(d_)
                 ops.append(("rename", s_, d_))
     return ops
 
@@ -303,6 +306,13 @@ def tree_after(tree, ops):
 
 
 FIXED = [
+    # D13: a directory that left the tree and came back under another name, then its old parent is renamed
+    ([("mkdir", "W/p"), ("mkdir", "W/p/a")],
+     [("rename", "W/p/a", "O/a"), ("create", "O/a/z"), ("rename", "O/a", "W/b"), ("rename", "W/p", "W/q"), ("create", "W/b/x")]),
+    # D2: changes inside a directory that has left the tree
+    ([("mkdir", "W/d"), ("mkdir", "W/d/dd"), ("create", "W/d/a")],
+     [("rename", "W/d", "O/x"), ("create", "O/x/b"), ("create", "O/x/dd/b"), ("chmod", "O/x"), ("unlink", "O/x/a"), ("mkdir", "W/d"),
+      ("rename", "O/x/dd", "W/d/dd"), ("create", "W/d/dd/a"), ("rmtree", "O/x")]),
     ([], [("create", "W/a"), ("write", "W/a"), ("chmod", "W/a"), ("rename", "W/a", "W/b"), ("unlink", "W/b")]),
     ([], [("mkdir", "W/d"), ("mkdir", "W/d/dd"), ("create", "W/d/dd/a"), ("rename", "W/d", "W/dd"), ("create", "W/dd/dd/b"),
           ("rmtree", "W/dd")]),
